@@ -948,3 +948,28 @@ C20_CALC_MSE = dict(
                                        [("screen", "obs_screen", None), ("thetas", _QM, None)])},
 )
 ALL += [C20_PREDICT_AVG, C20_CALC_MSE]
+# ModelEvaluation.mean_predictions (property): predictions.mean(axis=1)
+C20_EV_MEAN_PREDICTIONS = dict(_C20_EV, func="mean_predictions", name="src_ev_mean_predictions", returns=_QS, prims=_EV_NUMPY)
+ALL += [C20_EV_MEAN_PREDICTIONS]
+# ModelEvaluation.__init__: the dtype guards are true of what the wire carries (floats, ints, strings); `ncols` = predictions.shape[1]
+_EV_FIELDS4 = dict(_EV_FIELDS, _sample_names=("evaluation", "list list Z", "ev_names {obj}", "set_ev_names {obj} {val}"))
+C20_EV_INIT = dict(
+    _C20_EV, func="__init__", name="src_ev_init", pyparams=["self", "predictions", "observations", "chain_ids", "sample_names"],
+    params=[("self", "evaluation"), ("ncols", "nat"), ("predictions", _QM), ("observations", _QS), ("chain_ids", _ZS),
+            ("sample_names", "list list Z")],
+    returns="evaluation", fields=_EV_FIELDS4, implicit_return="{self}",
+    prims=[
+        ("np.issubdtype(predictions.dtype, FloatingPointType)", "true", "bool"),
+        ("np.issubdtype(observations.dtype, FloatingPointType)", "true", "bool"),
+        ("np.issubdtype(chain_ids.dtype, int)", "true", "bool"),
+        ("np.issubdtype(sample_names.dtype, str)", "true", "bool"),
+        ("len(predictions.shape)", "ndim_of ncols predictions'", "Z"),
+        ("predictions.shape[1]", "Z.of_nat ncols", "Z"),
+        ("__a.shape[0]", "Z.of_nat (length {a})", "Z"),
+    ],
+    raises=[("predictions must be floats", 1), ("observations must be floats", 1), ("chain_ids must be ints", 1),
+            ("sample_names must be str", 1), ("predictions and observations must have the same number of samples", 1),
+            ("sample_names and observations must be the same size", 1), ("Predictions must be a matrix", 1),
+            ("chain_ids must have one entry per theta", 1)],
+)
+ALL += [C20_EV_INIT]
